@@ -106,14 +106,26 @@ func check(c Case, o *stats.Obs) error {
 		}
 	}
 	if t < 0 {
-		m := handler.NewNonRTCM([]byte("junk"))
-		m.MessageType = t
-		for _, lv := range levels {
-			m.LogLevel = lv
-			if m.String() == "" {
-				return fmt.Errorf("String() of sentinel type %d is empty", t)
+		// the sentinel carries whatever was not a frame: text, a single byte, the first bytes of a frame that
+		// the input broke off in, a whole frame that failed its CRC - all of it must be displayable
+		whole := enc.Frame(enc.PayloadWithType(1077, 12, []byte{1, 2, 3}))
+		whole[len(whole)-1] ^= 1
+		raws := [][]byte{[]byte("junk"), {}, {0x00}, {0xd3}, whole}
+		for n := 2; n <= 8; n++ {
+			raws = append(raws, append([]byte{}, whole[:n]...), append([]byte{0xd3, 0x03, 0xff}, whole[3:n+1]...)[:n])
+		}
+		for _, raw := range raws {
+			m := handler.NewNonRTCM(raw)
+			m.MessageType = t
+			for _, lv := range levels {
+				m.LogLevel = lv
+				if m.String() == "" {
+					return fmt.Errorf("String() of sentinel type %d with raw data %x is empty", t, raw)
+				}
 			}
 		}
+		m := handler.NewNonRTCM([]byte("junk"))
+		m.MessageType = t
 		o.NonTrivial, o.Hash = true, stats.HashInts(int64(t))
 		return nil
 	}
@@ -216,6 +228,36 @@ func check(c Case, o *stats.Obs) error {
 			}
 			if (m.Timestamp != 0) != wm || (wm && m.Timestamp != 1000) {
 				return fmt.Errorf("after a stream that broke off %d bytes into a type %d frame, the same handler extracts timestamp %d from a valid frame of type %d (MSM = %v, its timestamp field is 1000)", cut, other, m.Timestamp, t, wm)
+			}
+		}
+	}
+	// History: right before this frame the same handler sees an MSM of another constellation carrying the
+	// same timestamp (receivers send one message per constellation per epoch).  The time lines of this message
+	// must be this type's own: they name its constellation, and a type whose time scale the library does not
+	// handle still says so.
+	if wm {
+		fresh, _ := drive.NewHandler(slog.LevelInfo).GetMessage(append([]byte{}, frame...))
+		for _, other := range []int{1077, 1087, 1097, 1127, 1074, 1117} {
+			if other == t {
+				continue
+			}
+			ob := &enc.BitWriter{}
+			ob.Put(uint64(other), 12)
+			ob.Put(5, 12)
+			ob.Put(1000, 30)
+			op := make([]byte, 40)
+			copy(op, ob.Bytes())
+			h := drive.NewHandler(slog.LevelInfo)
+			h.GetMessage(enc.Frame(op))
+			m, _ := h.GetMessage(append([]byte{}, frame...))
+			if m == nil || fresh == nil {
+				return fmt.Errorf("GetMessage returned nil for a valid frame of type %d", t)
+			}
+			if !strings.Contains(norm(m.StartOfWeek), wc) {
+				return fmt.Errorf("type %d decoded right after a type %d message with the same timestamp: its week line %q does not name the %s constellation", t, other, m.StartOfWeek, wc)
+			}
+			if m.StartOfWeek != fresh.StartOfWeek || m.SentAt != fresh.SentAt || m.ErrorMessage != fresh.ErrorMessage {
+				return fmt.Errorf("type %d decoded right after a type %d message with the same timestamp differs from the same frame decoded by a fresh handler: week line %q vs %q, time %q vs %q, error %q vs %q", t, other, m.StartOfWeek, fresh.StartOfWeek, m.SentAt, fresh.SentAt, m.ErrorMessage, fresh.ErrorMessage)
 			}
 		}
 	}
